@@ -79,10 +79,13 @@ type SCase struct {
 	// turn from BulkBodies, regions in turn) are reported before the follower connects (BulkWhere
 	// "pre": with a fresh leader the follower catches up from index 0 in ONE response) or while it is
 	// disconnected ("offline"), so that single responses reach the MiB range.
-	KeyPad     int    `json:"key_pad,omitempty"`
-	Bulk       int    `json:"bulk,omitempty"`
-	BulkWhere  string `json:"bulk_where,omitempty"`
-	BulkBodies []Reg  `json:"bulk_bodies,omitempty"`
+	KeyPad int `json:"key_pad,omitempty"`
+	// instead of KeyPad: aim the largest response (PadRecords regions in it) at TargetBytes
+	TargetBytes int    `json:"target_bytes,omitempty"`
+	PadRecords  int    `json:"pad_records,omitempty"`
+	Bulk        int    `json:"bulk,omitempty"`
+	BulkWhere   string `json:"bulk_where,omitempty"`
+	BulkBodies  []Reg  `json:"bulk_bodies,omitempty"`
 	// Leader restart (last phase): BeforeRestart changes are broadcast, then the leader side is rebuilt
 	// (new RegionSyncer = fresh change log over the same region storage, so its next index is the
 	// persisted one, up to 100 behind; new gRPC server on the same address) while the follower keeps
@@ -154,26 +157,20 @@ const (
 // genBigSync draws a scenario whose largest single response is aimed at a size class below msgSize.
 func genBigSync(t *rapid.T) SCase {
 	var c SCase
-	target := rapid.SampledFrom([]int{512 << 10, 2500 << 10, 5 << 20, 6 << 20, 7 << 20, 7 << 20}).Draw(t, "targetBytes")
+	// 10 and 14 MiB are beyond msgSize: clamped by the runner while the finding below is known
+	c.TargetBytes = rapid.SampledFrom([]int{512 << 10, 2500 << 10, 5 << 20, 6 << 20, 7 << 20, 7 << 20, 10 << 20, 14 << 20}).Draw(t, "targetBytes")
 	kind := rapid.SampledFrom([]string{"full", "catchup", "catchup", "offline"}).Draw(t, "bigKind")
 	c.RegionStorage = rapid.Bool().Draw(t, "regionStorage")
-	pad := func(records int) int {
-		p := (target/records - perRecord) / 2
-		if p < 0 {
-			p = 0
-		}
-		return p
-	}
 	n := 6
 	switch kind {
 	case "full":
 		n = rapid.SampledFrom([]int{100, 101, 250}).Draw(t, "n")
 		c.HistIdx = 5000
-		c.KeyPad = pad(100)
+		c.PadRecords = 100
 		c.Post = genChanges(t, "npost", []int{0, 2})
 	default:
 		c.Bulk = rapid.SampledFrom([]int{1000, 3000, 9000, 9900}).Draw(t, "bulk")
-		c.KeyPad = pad(c.Bulk + 10)
+		c.PadRecords = c.Bulk + 10
 		c.BulkWhere = "pre"
 		if kind == "offline" {
 			c.BulkWhere = "offline"
@@ -865,6 +862,7 @@ type syncResult struct {
 	behind       uint64 // leader restart: how far the new leader's next index is behind the follower's
 	reused       int    // broadcasts after the restart that lie entirely below the follower's old index
 	maxBytes     int    // largest single response
+	rejected     string // the follower kept re-requesting the same index
 }
 
 // prefillExLeader fills the follower's cache the way a former leader's cache looks: regions built
@@ -942,6 +940,23 @@ func execSync(c SCase, excludeKnown bool) (res syncResult) {
 		reconnect = false
 		res.excluded[keyReloadLeaders]++
 	}
+	if c.TargetBytes > 0 && c.PadRecords > 0 {
+		target := c.TargetBytes
+		if target > 7<<20 && c.Bulk == 0 {
+			// a full-synchronisation batch is 100 regions: above 8 MiB only with regions of > 84 KB
+			// each (keys > 42 KB), which is outside what is generated
+			target = 7 << 20
+		}
+		if target > 7<<20 && excludeKnown && vkit.Known(keyOverMsgSize) {
+			// known finding: a response is bounded by a record count only; beyond msgSize (8 MiB) it is
+			// never delivered. Trigger class excluded: the largest response stays below msgSize.
+			target = 7 << 20
+			res.excluded[keyOverMsgSize]++
+		}
+		if c.KeyPad = (target/c.PadRecords - perRecord) / 2; c.KeyPad < 0 {
+			c.KeyPad = 0
+		}
+	}
 	fx, err := newFixture(hist, c.RegionStorage)
 	if err != nil {
 		res.inconclusive = "fixture: " + err.Error()
@@ -958,7 +973,8 @@ func execSync(c SCase, excludeKnown bool) (res syncResult) {
 			}
 		}
 		fx.mu.Unlock()
-		if res.maxBytes > msgSize {
+		res.rejected = rejected
+		if res.maxBytes > msgSize && excludeKnown && vkit.Known(keyOverMsgSize) {
 			res.inconclusive = fmt.Sprintf("a response of %d bytes exceeds msgSize: outside what the syncer can deliver", res.maxBytes)
 			return
 		}
@@ -1266,7 +1282,7 @@ func (m *msg) describe() string {
 func runSync(c SCase) (vkit.Info, error) {
 	var info vkit.Info
 	res := execSync(c, true)
-	for _, k := range []string{keyFullSyncLeaders, keyReloadLeaders, keyUnbind} {
+	for _, k := range []string{keyFullSyncLeaders, keyReloadLeaders, keyUnbind, keyOverMsgSize} {
 		if res.excluded[k] > 0 {
 			info.Exclude(k)
 		}
@@ -1295,6 +1311,8 @@ func runSync(c SCase) (vkit.Info, error) {
 	info.ClassIf(res.exLeader > 0, fmt.Sprintf("ex-leader-follower-term=%d", c.ExTerm))
 	info.ClassIf(res.restarted, "leader-restart")
 	switch {
+	case res.maxBytes > msgSize:
+		info.Class("largest-response>8MiB")
 	case res.maxBytes >= 4<<20:
 		info.Class("largest-response=4-8MiB")
 	case res.maxBytes >= 1<<20:
